@@ -53,11 +53,24 @@ theorem defaults_match_source :
     Gen.RfDefaults.defaultLoadRetryDelay = loadRetryDelay := by
   refine ⟨by decide, by decide, by decide, by decide, by decide, by decide, by decide, by decide, rfl,
     by decide, by decide, by decide, ?_, ?_, ?_, ?_, ?_, ?_, ?_, ?_, ?_, ?_, ?_, ?_, ?_, ?_, ?_, ?_, ?_,
-    by decide, by decide, by decide⟩ <;>
-  · intro x h
-    first
-      | exact (Option.some.inj h).symm.trans (by decide)
-      | exact (Option.some.inj h).symm
+    by decide, by decide, by decide⟩
+  · intro b h; unfold Gen.RfDefaults.srcNamespaced at h; cases h <;> decide
+  · intro b h; unfold Gen.RfDefaults.srcOwned at h; cases h <;> decide
+  · intro b h; unfold Gen.RfDefaults.srcReadonly at h; cases h <;> decide
+  · intro b h; unfold Gen.RfDefaults.srcDeleteIfExists at h; cases h <;> decide
+  · intro b h; unfold Gen.RfDefaults.srcCreateEnabled at h; cases h <;> decide
+  · intro b h; unfold Gen.RfDefaults.srcCreateDelay at h; cases h <;> decide
+  · intro b h; unfold Gen.RfDefaults.srcUpdatePolicy at h; cases h <;> decide
+  · intro b h; unfold Gen.RfDefaults.srcUpdateDelay at h; cases h <;> decide
+  · intro b h; unfold Gen.RfDefaults.crdNamespaced at h; cases h <;> decide
+  · intro b h; unfold Gen.RfDefaults.crdOwned at h; cases h <;> decide
+  · intro b h; unfold Gen.RfDefaults.crdReadonly at h; cases h <;> decide
+  · intro b h; unfold Gen.RfDefaults.crdDeleteIfExists at h; cases h <;> decide
+  · intro b h; unfold Gen.RfDefaults.crdCreateEnabled at h; cases h <;> decide
+  · intro b h; unfold Gen.RfDefaults.crdCreateDelay at h; cases h <;> decide
+  · intro b h; unfold Gen.RfDefaults.crdUpdatePolicy at h; cases h <;> decide
+  · intro b h; unfold Gen.RfDefaults.crdPatchDelay at h; cases h <;> decide
+  · intro b h; unfold Gen.RfDefaults.crdRecreateDelay at h; cases h <;> decide
 
 /-- a spec that omits every flag is the default management mode: owning, namespaced, may create, patches -/
 theorem omitted_flags_cfg (pp : Bool) :
